@@ -704,4 +704,24 @@ example : AslProofs.HttpExpect.HeadOkX [80, 79, 83, 84] [47] [72, 84, 84, 80, 47
 example : (AslModel.HttpParse.read { inp := [80, 79, 83, 84, 32, 47, 32, 72, 84, 84, 80, 47, 49, 46, 49, 13, 10, 84, 114, 97, 110, 115, 102, 101, 114, 45, 69, 110, 99, 111, 100, 105, 110, 103, 58, 32, 99, 104, 117, 110, 107, 101, 100, 13, 10, 69, 120, 112, 101, 99, 116, 58, 32, 49, 48, 48, 45, 99, 111, 110, 116, 105, 110, 117, 101, 13, 10, 13, 10, 50, 13, 10, 104, 105, 13, 10, 48, 13, 10, 13, 10, 88] }).toOption.map
     (fun r => (r.1.body, r.2.out == sContinue, r.2.inp)) = some ([104, 105], true, [88]) := by decide
 
+open AslProofs.HttpExpect in
+/-- `serve_faithful` with `Expect` fields allowed: the keep-alive loop hands every pipelined well-formed request over,
+    in order, exactly once, whatever interim answers it wrote in between, and has read the whole stream -/
+theorem serve_faithful_expect (qs : List WfReq) (hq : ∀ q ∈ qs, WellFormedX q ∧ Dispatched q) :
+    ∃ s0, serveLoop { inp := qs.flatMap serialize } = .ok (s0, qs.map reqOf) ∧ s0.inp = [] ∧ s0.err = 0 ∧
+      serve { inp := qs.flatMap serialize } = .ok (closeBehind s0, qs.map reqOf) := by
+  obtain ⟨s', h1, h2, h3⟩ := iterate_serve_pipelined_x qs hq ((qs.flatMap serialize).length + 1)
+    { inp := qs.flatMap serialize } [] rfl rfl rfl (by have := flatMap_serialize_length qs; omega)
+  have hloop : serveLoop { inp := qs.flatMap serialize } = .ok (s', qs.map reqOf) := by
+    unfold serveLoop
+    simpa using h1
+  exact ⟨s', hloop, h2, h3, serve_of_loop _ _ hloop⟩
+
+-- the request of the `WellFormedX` example is dispatched and keeps the connection (hypothesis of `serve_faithful_expect`);
+example : Dispatched ⟨[80, 79, 83, 84], [47, 97], [72, 84, 84, 80, 47, 49, 46, 49],
+    [(sContentLength, [50]), (sExpect, s100continue)], [104, 105]⟩ where
+  not_options := by decide
+  path_ne := by decide
+  keeps := by decide
+
 end C09
